@@ -13,15 +13,15 @@ import (
 
 func init() {
 	register(&propDef{
-		ID:    "C17",
-		Title: "Quoting is a bijection that never emits a field separator",
-		Run:   runC17,
+		ID:          "C17",
+		Title:       "Quoting is a bijection that never emits a field separator",
+		Run:         runC17,
 		Explanation: "Structural necessary conditions of the 'never emits a separator' clause, decided on SSA: (escapes) what Bquote returns is derived from strconv.Quote (no raw newline or control byte survives) and every separator byte the line tokenizer splits on (dnsdata.SEP, dnsdata.NSEP) is the target of a ReplaceAll whose replacement contains no separator; (taint) in the text marshallers no free-form []byte field of a record and no []byte parameter of a text helper reaches a writer raw — only through quote.Bquote or a numeric / library formatter. The bijection Bunquote(Bquote(b)) == b for all byte strings is a value-level statement and is not decided.",
 	})
 	register(&propDef{
-		ID:    "C18",
-		Title: "SVCB/HTTPS parameters compile to conformant, faithful wire data",
-		Run:   runC18,
+		ID:          "C18",
+		Title:       "SVCB/HTTPS parameters compile to conformant, faithful wire data",
+		Run:         runC18,
 		Explanation: "Structural necessary conditions, decided on SSA/AST: (tables) the name, marshaller and unmarshaller tables cover exactly the declared parameter keys; (registry) the key numbers equal the RFC 9460 registry; (sorted) every successful path of ParamList.FromText passes the stable sort by key number, and the mandatory list is sorted before it is emitted; (checks) duplicate keys, a mandatory key naming a missing key, and mandatory naming itself are each rejected by an error-returning branch; (seen-index) the index remembered for a key is an index into the parameter list (no iteration can skip appending while still advancing the index); (owned) value marshallers return memory they own (nothing obtained from a sync.Pool escapes); (wire) a parameter is emitted as key:2 ‖ length:2 ‖ value, big-endian, and Rsvcb.MarshalMap emits priority:2 ‖ target ‖ parameters. Value-level wire conformance of each value is not decided.",
 	})
 }
@@ -29,6 +29,65 @@ func init() {
 func runC17(c *Ctx) {
 	c17Escapes(c)
 	c17Taint(c)
+	c17Unquote(c)
+}
+
+// c17Unquote implements C17.unquote-multibyte and C17.unquote-errors.
+// strconv.UnquoteChar returns the same rune value for the escape \xe9 (one byte 0xE9) and for a literal U+00E9 (two
+// bytes of UTF-8): only its `multibyte` result tells them apart. An unquoter that decides between "append one byte"
+// and "append the UTF-8 encoding" without consulting it cannot be the inverse of Bquote on both forms.
+func c17Unquote(c *Ctx) {
+	rule := "C17.unquote-multibyte"
+	c.Rule(rule, "A2 control dependence in Bunquote: the append of the decoded rune as a single byte is control dependent on the multibyte result of strconv.UnquoteChar (the only thing that separates a \\xHH/\\ooo byte escape from a literal multi-byte character of the same value); the UnquoteChar error is returned before its results are used")
+	fn := c.Func("dnsdata/quote", "Bunquote")
+	c.Examined(fn)
+	var uq *ssa.Call
+	for _, ci := range callInstrs(fn) {
+		if f := calleeOf(ci.Common()); f != nil && f.Pkg() != nil && f.Pkg().Path() == "strconv" && f.Name() == "UnquoteChar" {
+			uq, _ = ci.(*ssa.Call)
+		}
+	}
+	if uq == nil {
+		c.Undecided(rule, "Bunquote|UnquoteChar", fn.Pos(), "Bunquote does not decode with strconv.UnquoteChar: the rule does not know this decoder")
+		return
+	}
+	var runeV, multi, errV ssa.Value
+	for _, r := range *uq.Referrers() {
+		if ex, ok := r.(*ssa.Extract); ok {
+			switch ex.Index {
+			case 0:
+				runeV = ex
+			case 1:
+				multi = ex
+			case 3:
+				errV = ex
+			}
+		}
+	}
+	n := 0
+	for _, b := range fn.Blocks {
+		for _, in := range b.Instrs {
+			cv, ok := in.(*ssa.Convert)
+			if !ok || cv.X != runeV {
+				continue
+			}
+			bt, isB := cv.Type().Underlying().(*types.Basic)
+			if !isB || (bt.Kind() != types.Uint8 && bt.Kind() != types.Byte) {
+				continue
+			}
+			n++
+			consulted := false
+			for _, cond := range controlConds(b) {
+				if multi != nil && (cond == multi || backSliceCtl(cond)[multi]) {
+					consulted = true
+				}
+			}
+			c.Check(rule, fmt.Sprintf("Bunquote|byte(rune)#%d|under-multibyte-test", n), consulted, cv.Pos(), "truncating the rune to one byte is only right for ASCII and for byte escapes, which the multibyte result identifies")
+			checked := errV != nil && dominatedByNilEdge(cv, func(src ssa.Value) bool { return src == errV })
+			c.Check(rule, fmt.Sprintf("Bunquote|byte(rune)#%d|after-error-check", n), checked, cv.Pos(), "the decoded rune is used only when UnquoteChar reported no error")
+		}
+	}
+	c.Floor(rule, 2)
 }
 
 func c17Escapes(c *Ctx) {
@@ -104,6 +163,43 @@ func c17Escapes(c *Ctx) {
 		}
 	}
 	c.Check(rule, "Bquote|result-derives-from-strconv.Quote", okQuote, fn.Pos(), "control bytes, newlines, backslashes and invalid UTF-8 are escaped by strconv.Quote before anything else")
+	// per return: no byte of the input reaches the result around the escaper, and the escaper sees the whole input
+	var quote *ssa.Call
+	for _, ci := range callInstrs(fn) {
+		if f := calleeOf(ci.Common()); f != nil && f.Pkg() != nil && f.Pkg().Path() == "strconv" && f.Name() == "Quote" {
+			quote, _ = ci.(*ssa.Call)
+		}
+	}
+	if quote != nil && len(fn.Params) == 1 {
+		in := ssa.Value(fn.Params[0])
+		whole := false
+		if cv, ok := quote.Call.Args[0].(*ssa.Convert); ok {
+			switch x := cv.X.(type) {
+			case *ssa.Parameter:
+				whole = x == in
+			case *ssa.Slice:
+				whole = x.X == in && x.Low == nil && x.High == nil
+			}
+		}
+		c.Check(rule, "Bquote|strconv.Quote-sees-the-whole-input", whole, quote.Pos(), "the escaper is applied to string(input), not to a part of it")
+		for i, ret := range returnsOf(fn) {
+			around := backSlice(ret.Results[0], func(v ssa.Value) bool { return v == ssa.Value(quote) })[in]
+			short := hasFact(ret.Block(), func(v ssa.Value, truth bool) bool {
+				bo, ok := v.(*ssa.BinOp)
+				if !ok || !truth || bo.Op != token.LSS {
+					return false
+				}
+				k, isK := constInt(bo.Y)
+				call, isCall := bo.X.(*ssa.Call)
+				if !isK || k > 2 || !isCall {
+					return false
+				}
+				bi, isB := call.Call.Value.(*ssa.Builtin)
+				return isB && bi.Name() == "len" && backSlice(call.Call.Args[0], nil)[ssa.Value(quote)]
+			})
+			c.Check(rule, fmt.Sprintf("Bquote|return#%d|no-input-byte-bypasses-the-escaper", i), !around || short, ret.Pos(), "a returned value contains input bytes only through strconv.Quote (the len(quoted) < 2 path cannot be taken: a quoted string has at least its two quotes)")
+		}
+	}
 	c.Check(rule, "Bquote|replacements-reach-the-result", nRepl >= 2, fn.Pos(), fmt.Sprintf("%d ReplaceAll results flow into the returned value", nRepl))
 	// a replacement that un-escapes must not reintroduce a separator: 'new' of every ReplaceAll is separator free
 	okAll := true
